@@ -183,7 +183,8 @@ def matrix_route(ctx, res):
         series = [[rng.randint(-3, 3) for _ in range(l * nd)] for l in lens]
         psi = rng.choice([None, 1, (1, 0, 0, 1), (0, 1, 1, 0), (2, 0, 0, 0), (0, 0, 0, 2), (1, 2, 0, 0), (0, 0, 2, 1)])
         st = {"window": rng.choice([None, 1, 2, 3]), "penalty": rng.choice([None, 1, 2]), "psi": psi,
-              "max_step": rng.choice([None, None, 3]), "inner": "sq"}
+              "max_step": rng.choice([None, None, 3]), "inner": "sq",
+              "max_length_diff": rng.choice([None, None, 1, 2])}
         if _ % 4 == 1:
             # no window, lengths ascending, steps at very different positions: each pair needs its own full band (a
             # setting computed for the first, short pair must not be reused for the later, long ones)
@@ -219,9 +220,16 @@ def matrix_route(ctx, res):
             res.hit("matrix_route_asymmetric_psi")
         res.nontrivial.add(repr(("matrix", series, sorted((k, repr(v)) for k, v in st.items()))))
         for cname, data in conts.items():
-            for route, rk in (("serial", dict(parallel=False)), ("openmp", dict(parallel=True))):
+            for route, rk in (("serial", dict(parallel=False)), ("openmp", dict(parallel=True)),
+                              ("fast wrapper", dict(parallel=False, _fast=True)),
+                              ("fast wrapper, parallel", dict(parallel=True, _fast=True))):
                 try:
-                    got = [impl.canon(x) for x in mod.distance_matrix(data, compact=True, use_c=True, **rk, **extra, **kw)]
+                    rk = dict(rk)
+                    if rk.pop("_fast", False):
+                        # the convenience alias: same options, C engine implied
+                        got = [impl.canon(x) for x in mod.distance_matrix_fast(data, compact=True, **rk, **extra, **kw)]
+                    else:
+                        got = [impl.canon(x) for x in mod.distance_matrix(data, compact=True, use_c=True, **rk, **extra, **kw)]
                 except BaseException as ex:
                     if isinstance(ex, (KeyboardInterrupt, SystemExit)):
                         raise
